@@ -17,7 +17,7 @@ VERIFICATION_MESSAGES = (
     'decreases not satisfied', 'possible bit shift', 'recommendation not met',
     'unreachable', 'loop invariant', 'possible overflow', 'possible underflow',
     'constructed value may fail to meet its declared type invariant',
-    'cannot show', 'might not', 'failed',
+    'cannot show', 'might not', 'failed', 'unable to prove', 'post-condition', 'pre-condition',
 )
 
 
@@ -35,6 +35,7 @@ class VerusResult:
         self.wall_s = 0.0
         self.raw_stderr = ''
         self.version = ''
+        self.unclassified = None    # error diagnostics of an unknown kind next to verification failures
 
 
 def run(path, gen, rlimit=30, multiple_errors=30, extra=()):
@@ -90,6 +91,11 @@ def run(path, gen, rlimit=30, multiple_errors=30, extra=()):
             continue
         spans = d.get('spans', [])
         is_verif = any(m in msg for m in VERIFICATION_MESSAGES)
+        # once Verus reports verification results, type checking and VIR construction have
+        # succeeded: every remaining error diagnostic is a failed proof obligation, whatever
+        # its wording (e.g. "unable to prove post-condition of closure")
+        if not is_verif and vr and (vr.get('verified', 0) + vr.get('errors', 0)) > 0 and not vr.get('encountered-vir-error') and not d.get('code'):
+            is_verif = True
         if any(u in msg for u in UNDECIDED_PATTERNS):
             r.undecided = 'solver resource limit: ' + msg
             continue
@@ -127,8 +133,10 @@ def run(path, gen, rlimit=30, multiple_errors=30, extra=()):
         msgs = '; '.join((d.get('message', '') + ' @' + str((d.get('spans') or [{}])[0].get('line_start'))) for d in hard_errors[:5])
         r.undecided = 'unit does not compile under Verus (unsupported construct / type error): ' + msgs
     elif hard_errors:
-        # both kinds: verification failures are real, but note the rest
-        pass
+        # verification failures next to errors of an unknown kind: never report the run as
+        # clean — the unknown ones make it undecided unless the named failures decide it
+        msgs = '; '.join((d.get('message', '') + ' @' + str((d.get('spans') or [{}])[0].get('line_start'))) for d in hard_errors[:5])
+        r.unclassified = msgs
     if not vr and not r.undecided:
         r.undecided = 'no verification-results in Verus output'
     if vr.get('encountered-vir-error') and not r.failures and not r.undecided:
